@@ -214,7 +214,7 @@ func validateSandbox(state *core.BuildState, target *core.BuildTarget) error {
 		}
 	}
 	for _, dir := range state.Config.Parse.ExperimentalDir {
-		if strings.HasPrefix(target.Label.PackageName, dir) {
+		if target.Label.PackageName == dir || strings.HasPrefix(target.Label.PackageName, dir+"/") {
 			return nil
 		}
 	}
